@@ -880,7 +880,8 @@ def classify_known(sess, step_results, i, key, hv, fv):
     (C08_history_dependent_multiline_call)?  That is: the query went through cache_signatures with
     a key whose middle component is None (cursor on a later line than the bracket, no bracket in
     between), the call was answered from the time cache, the cached value was computed at an earlier
-    step j of this history - and the answer shown is the one computed at step j."""
+    step j of this history - and the answer shown is the one computed at step j.
+    Returns ('known', None), ('verify', obs) when only the two-Script reconstruction can tell, or None."""
     m = re.match(r'(get_signatures|complete)@(\d+),(\d+)$', key)
     if not m or not isinstance(hv, list) or not isinstance(fv, list):
         return None
@@ -893,14 +894,26 @@ def classify_known(sess, step_results, i, key, hv, fv):
         o = obs[0]
         oa = step_results[o['origin_step']]['answers'].get('get_signatures@%d,%d' % tuple(o['origin_pos']))
         if isinstance(oa, list) and [(x[0], x[3]) for x in hv] == [(x[0], x[3]) for x in oa]:
-            return 'stale-signature-multiline-call'
-        return None
-    # complete(): the signatures only contribute the keyword-parameter completions `name=`
+            return 'known', None
+        return 'verify', obs[0]
+    # complete(): mostly the signatures only contribute the keyword-parameter completions `name=`
     h = {json.dumps(x) for x in hv}
     f = {json.dumps(x) for x in fv}
     if all(json.loads(x)[0].endswith('=') for x in h ^ f):
-        return 'stale-signature-multiline-call'
-    return None
+        return 'known', None
+    return 'verify', obs[0]
+
+
+def mini_session(sess, i, key, obs):
+    """The model says the stale answer is a function of the current tree and of the signature value
+    computed at the origin step only: [Script(text_j): ask at the origin cursor] then
+    [Script(text_i): the failing query], nothing else, must reproduce it."""
+    m = re.match(r'(\w+)@(\d+),(\d+)$', key)
+    st_i, st_j = sess['steps'][i], sess['steps'][obs['origin_step']]
+    steps = [dict(buf=st_j['buf'], kind='origin', text=st_j['text'], positions=[obs['origin_pos']], word=st_j['word'], tick=0),
+             dict(buf=st_i['buf'], kind='stale', text=st_i['text'], positions=[[int(m.group(2)), int(m.group(3))]],
+                  word=st_i['word'], tick=0)]
+    return dict(mode=sess['mode'], buffers=sess['buffers'], steps=steps)
 
 
 def stream_history(ctx):
@@ -941,13 +954,19 @@ def stream_history(ctx):
     kinds, modes = {}, {}
     n_steps = n_excl = n_q = n_exc = n_sig_hits = 0
     failing = []
+    to_verify, unknown = [], {}
+
+    def known_hit(s, i, key, hv, fv):
+        # a finding the model predicts (Props: C08_history_dependent_multiline_call)
+        ctx.deviation(dict(stream='history', cls='stale-signature-multiline-call', predicted=True),
+                      dict(session=_strip(dict(s, steps=s['steps'][:i + 1])), step=i, query=key, in_history=hv, fresh=fv),
+                      'stale answer of %s served from the signature time cache' % key)
     for s, r in zip(sessions, sres):
         modes[s['mode']] = modes.get(s['mode'], 0) + 1
         if r[0] != 'ok':
             ctx.deviation(dict(stream='history', cls='session-' + r[0]), dict(session=_strip(s), error=r[1:]),
                           'the session process did not finish: %s' % (r[1:2],))
             continue
-        first_fail = None
         for i, (st, sr) in enumerate(zip(s['steps'], r[1])):
             kinds[st['kind']] = kinds.get(st['kind'], 0) + 1
             n_steps += 1
@@ -970,18 +989,27 @@ def stream_history(ctx):
             ctx.count('history', (s['mode'], st['text'], tuple(map(tuple, st['positions'])), i), nontrivial=nontriv, n=nq)
             for (key, hv, fv) in _compare_step(sr, fr):
                 cls = classify_known(s, r[1], i, key, hv, fv)
-                if cls:
-                    # a finding the model predicts (Props: C08_history_dependent_multiline_call)
-                    ctx.deviation(dict(stream='history', cls=cls, predicted=True),
-                                  dict(session=_strip(dict(s, steps=s['steps'][:i + 1])), step=i, query=key,
-                                       in_history=hv, fresh=fv),
-                                  'stale answer of %s served from the signature time cache' % key)
-                elif first_fail is None:
-                    first_fail = (i, [(key, hv, fv)])
-                elif first_fail[0] == i:
-                    first_fail[1].append((key, hv, fv))
-        if first_fail:
-            failing.append((s, first_fail))
+                if cls and cls[0] == 'verify':
+                    to_verify.append((s, i, key, hv, fv, cls[1]))
+                elif cls:
+                    known_hit(s, i, key, hv, fv)
+                else:
+                    unknown.setdefault(s['id'], []).append((i, key, hv, fv))
+    # differences that only the two-Script reconstruction can attribute to the known finding
+    if to_verify:
+        vitems = [('session', (mini_session(s, i, key, obs), root_of[s['id']], None)) for (s, i, key, hv, fv, obs) in to_verify]
+        vres = common.pmap(_work, vitems, chunksize=1, timeout=6000)
+        for (s, i, key, hv, fv, obs), vr in zip(to_verify, vres):
+            if vr[0] == 'ok' and len(vr[1]) == 2 and vr[1][1]['answers'].get(key, '<missing>') == hv:
+                known_hit(s, i, key, hv, fv)
+            else:
+                unknown.setdefault(s['id'], []).append((i, key, hv, fv))
+    ctx.stat('history_known_finding_verified_by_two_script_reconstruction', len(to_verify))
+    for s in sessions:
+        u = sorted(unknown.get(s['id'], []), key=lambda x: x[0])
+        if u:
+            i0 = u[0][0]
+            failing.append((s, (i0, [(k, hv, fv) for (i, k, hv, fv) in u if i == i0])))
     ctx.stat('history_sessions', len(sessions))
     ctx.stat('history_modes', modes)
     ctx.stat('history_steps', n_steps)
